@@ -113,7 +113,7 @@ def run(ctx):
     lin_bad = [c for c in bad if c["kind"] == "linear-assemble"]
     call_flag_bad = (rf is not None and not rf.ok) or (res is not None and not res["call_uses_dof"])
     vec_bad = [c for c in bad if c["tag"] == "vector-val" and c["kind"] != "linear-assemble"
-               and (call_flag_bad or "form_uv" in c["what"] or "form_v" in c["what"])]
+               and call_flag_bad]        # attribute to Field.__call__ only when the source itself ignores the active dof
     other = [c for c in bad if c not in lin_bad and c not in vec_bad]
     # LinearForm.Assemble
     if (rl is not None and not rl.ok) or lin_bad or (res is not None and (res["lin_rows"], res["lin_cols"]) != ("AssemblyE", "Zeros")):
